@@ -87,9 +87,8 @@ func (s *Svc) Get(tok string) Rec {
 	s.mu.Lock()
 	defer s.mu.Unlock()
 	r := s.rec(tok)
-	c := *r
-	c.Sent = atomic.LoadInt64(&r.Sent)
-	return c
+	return Rec{Tok: r.Tok, Enters: r.Enters, Exits: r.Exits, Ctx: r.Ctx, CtxErrAtExit: r.CtxErrAtExit, Method: r.Method,
+		Sent: atomic.LoadInt64(&r.Sent), Closed: r.Closed, entered: r.entered, exited: r.exited}
 }
 func (s *Svc) Enters(tok string) int { return s.Get(tok).Enters }
 func (s *Svc) Total() int64          { return atomic.LoadInt64(&s.total) }
@@ -415,6 +414,10 @@ type Client struct {
 	BoomSub  func(ctx context.Context, tok string, kind int) (<-chan Item, error)
 	Sub      func(ctx context.Context, tok string, n int, mode int) (<-chan Item, error)
 	Rev      func(ctx context.Context, tok string, k int, which int) (string, error)
+	SubInt   func(ctx context.Context, tok string, n int, mode int) (<-chan int, error)
+	SubStr   func(ctx context.Context, tok string, n int, mode int) (<-chan string, error)
+	SubBytes func(ctx context.Context, tok string, n int, mode int) (<-chan []byte, error)
+	SubPtr   func(ctx context.Context, tok string, n int, mode int) (<-chan *Item, error)
 }
 
 // RevHandler is the client-side handler object for reverse calls.
@@ -447,4 +450,47 @@ func (h *RevHandler) RBoom(ctx context.Context, tok string, kind int) (string, e
 	defer h.S.exit(ctx, r)
 	DoPanic(kind, tok)
 	return "", nil
+}
+
+// ---- typed streams (element types other than struct) ------------------------
+
+func typed[T any](s *Svc, ctx context.Context, method, tok string, n, mode int, mk func(i int) T) (<-chan T, error) {
+	r, g := s.enter(ctx, method, tok)
+	defer s.exit(ctx, r)
+	if mode == SPrefilled {
+		ch := make(chan T, n+1)
+		for i := 0; i < n; i++ {
+			ch <- mk(i)
+			atomic.AddInt64(&r.Sent, 1)
+		}
+		close(ch)
+		return ch, nil
+	}
+	ch := make(chan T)
+	go func() {
+		wait(ctx, g)
+		defer close(ch)
+		for i := 0; i < n; i++ {
+			select {
+			case ch <- mk(i):
+				atomic.AddInt64(&r.Sent, 1)
+			case <-ctx.Done():
+				return
+			}
+		}
+	}()
+	return ch, nil
+}
+
+func (s *Svc) SubInt(ctx context.Context, tok string, n int, mode int) (<-chan int, error) {
+	return typed(s, ctx, "SubInt", tok, n, mode, func(i int) int { return i })
+}
+func (s *Svc) SubStr(ctx context.Context, tok string, n int, mode int) (<-chan string, error) {
+	return typed(s, ctx, "SubStr", tok, n, mode, func(i int) string { return fmt.Sprintf("%s:%d", tok, i) })
+}
+func (s *Svc) SubBytes(ctx context.Context, tok string, n int, mode int) (<-chan []byte, error) {
+	return typed(s, ctx, "SubBytes", tok, n, mode, func(i int) []byte { return []byte(fmt.Sprintf("%s:%d", tok, i)) })
+}
+func (s *Svc) SubPtr(ctx context.Context, tok string, n int, mode int) (<-chan *Item, error) {
+	return typed(s, ctx, "SubPtr", tok, n, mode, func(i int) *Item { return &Item{Tok: tok, Seq: i} })
 }
